@@ -27,8 +27,9 @@ PROPS = {
         'trusted': [PYFRAME_TRUST, 'tuple immutability; element objects that are themselves mutable are out of scope; deepcopy returns an independent vector'],
     },
     'C02': {
-        'level': 'exploration',
-        'explanation': 'Bounded only in this round: exhaustive operation sequences on tables up to 3x3 with a Rect / row-view monitor after every step. Table.__init__ / >> / << / T are not yet under a discharged contract (Table objects are not modelled by pyvc yet).',
+        'level': 'proof',
+        'explanation': 'Table objects are modelled with a concrete column count (0..3) and a symbolic row count. Proved from the real bodies: Table.__init__ stores a rectangular table of fresh copies (same values, dtypes, names) or rejects ragged input with SerifValueError; _stack_columns and Table >> vector append columns and leave existing cells untouched, rejecting a column of another length; Table << row appends exactly one cell to every column (via the Vector.__lshift__ contract); row slices and boolean masks apply the same selection to every column (via the Vector.__getitem__ contract) and keep names/dtypes; __len__. Attribute assignment, cell/row/region assignment, .T, Row views / iteration and the dict form of >> are bounded only (operation sequences on tables up to 3x3 with a Rect / row-view monitor).',
+        'trusted': ['column count bounded to 3 in the proofs (row count, values, names, dtypes arbitrary)', 'Table construction sites inside verified functions use the Table.__init__ contract'],
     },
     'C03': {
         'level': 'proof',
